@@ -65,6 +65,13 @@ def make_spec(st, idx, tier):
     ns = dict(weights=weights, base=int(choice(rng, [0, 0, 3, 35, 100])), alphas=sorted({float(choice(rng, [0.5, 0.7, 0.9, 0.95, 0.99])) for _ in range(2)}))
     cut = float(st.sched.uniform(250, 480))
     ops = [o for o in spec["ops"] if o["t"] <= cut]
+    if chance(rng, 0.3):
+        # an exact tie: a fully reported contest whose counted margin is exactly zero (neither side has it)
+        tie = choice(rng, cs)
+        ops = C.make_knife_edge_contest(spec, ops, cut, tie, 0.0)
+        for lst in ("lhs_called_contests", "rhs_called_contests", "stop_model_call"):
+            p[lst] = [c for c in p[lst] if c != tie]
+        spec["tie_contest"] = tie
     seq = [dict(k="poll", role="reference", fresh_client=True, national_summary=ns)]
     for _ in range(2 if tier == "quick" else 3):
         extra = [a for a in finer if chance(rng, 0.6)]
@@ -105,6 +112,18 @@ class Checker(C.BaseChecker):
             contests["_".join(str(r[k]) for k in keys)] = r
         names = sorted(contests)
         w = ns["weights"] if ns["weights"] is not None else {c: 1 for c in names}
+        if set(w) != set(names):
+            # the operator's dictionary does not name exactly the contests present (a contest without any feed row under the
+            # drop policy, or one created by a foreign unit): the library matches weights by sorted position and cannot know;
+            # only the ordering clause is meaningful then
+            st.probes["weights_do_not_name_the_contests_present"] += 1
+            out0 = []
+            row0 = rec.nat_sum.to_dict("records")[0]
+            for a in ns["alphas"]:
+                if not (C.fnum(row0[f"lower_{a}"]) <= C.fnum(row0["agg_pred"]) <= C.fnum(row0[f"upper_{a}"])):
+                    out0.append(self.v("not_ordered", f"national summary at level {a}: {row0}", correlation_mode=bool(rec.profile["model_parameters"].get("national_summary_correlation", True)),
+                                       hard_threshold=bool(rec.profile["model_parameters"].get("agg_model_hard_threshold", True))))
+            return out0, ("mismatched_weights", len(names)), False
         mp = p["model_parameters"]
         hard = mp.get("agg_model_hard_threshold", True)
         corr = mp.get("national_summary_correlation", True)
@@ -120,6 +139,8 @@ class Checker(C.BaseChecker):
             if hard:
                 if lo < base - 1e-9 or up > base + total + 1e-9:
                     out.append(self.v("out_of_bounds", f"national summary [{lo}, {up}] leaves [base, base + total weight] = [{base}, {base + total}]", **flags))
+        if any(C.fnum(contests[c]["pred_margin"]) == 0 for c in names):
+            st.probes["contest_with_margin_exactly_zero"] += 1
         if hard:
             want = base + sum(w[c] for c in names if C.fnum(contests[c]["pred_margin"]) > 0)
             if not C.close(pred, round(want, 2), rel=1e-12, abs_=1e-9):
